@@ -96,3 +96,28 @@ Definition split_fe (s : fe) : list fe :=
   let '(gs, conc) := split_constraints (cs s) in
   map (fun g => fe_add blank (group_constraints sp g)) gs ++
   match conc with [] => [] | _ => [fe_add blank conc] end.
+
+(* ---- a tree of solvers: the store maps solver identities to frontends (C14) ---- *)
+Inductive sop :=
+  | SAdd (i : nat) (new : list expr)      (* solver i: add(new) *)
+  | SBranch (i j : nat)                   (* j := solver i .branch() *)
+  | SQuery (i : nat).                     (* any query on solver i: no change of the constraint bookkeeping *)
+
+Definition store := list (nat * fe).
+Fixpoint sget (m : store) (k : nat) : option fe :=
+  match m with [] => None | (i, s) :: r => if Nat.eqb i k then Some s else sget r k end.
+Fixpoint sset (m : store) (k : nat) (s : fe) : store :=
+  match m with
+  | [] => [(k, s)]
+  | (i, t) :: r => if Nat.eqb i k then (i, s) :: r else (i, t) :: sset r k s
+  end.
+
+Definition sstep (m : store) (o : sop) : store :=
+  match o with
+  | SAdd i new => match sget m i with Some s => sset m i (fe_add s new) | None => m end
+  | SBranch i j => match sget m i, sget m j with Some s, None => sset m j (branch s) | _, _ => m end
+  | SQuery _ => m
+  end.
+
+Definition touches (o : sop) (k : nat) : bool :=
+  match o with SAdd i _ => Nat.eqb i k | SBranch _ j => Nat.eqb j k | SQuery _ => false end.
